@@ -10,6 +10,7 @@ MCNext == \E g \in Inst :
             \/ NextU64(g) /\ PrintT(<<"J", St, "next_u64", g, 0, St2>>)
             \/ \E n \in FillLens : Fill(g, n) /\ PrintT(<<"J", St, "fill_bytes", g, n, St2>>)
             \/ \E h \in Inst : Clone(g, h) /\ PrintT(<<"J", St, "clone", g, h, St2>>)
+            \/ \E h \in Inst : CloneFrom(g, h) /\ PrintT(<<"J", St, "clone_from", g, h, St2>>)
 MCSpec == Init /\ [][MCNext]_vars
 MCInst == {1, 2, 3}
 MCFills == {0, 1, 3, 4, 5, 7, 8, 9, 12, 13, 16, 17}
